@@ -114,6 +114,58 @@ theorem zeroCrossings_lt (e : List α) : ∀ g ∈ zeroCrossings e, g < e.length
   have := List.mem_range.mp this
   omega
 
+/-- **C03 tie, the kernels as functions.**  As `get_next_passes_eq` below, with `_get_root` and `_get_max_parab` any
+    functions that, on the two `partial` objects of this call and its `tol`, answer `root g` and `maxim lo hi` (so that
+    they can be instantiated with translated code: PV.Equiv.TranslatedPassesParab).
+    `get_next_passes(utc_time, length, lon, lat, alt, tol, horizon)` as the source has it now, on the
+    elevation samples `e` (minus horizon): the model's `passes`, each pass reported as (rise, fall, culmination) times.
+    `hceil`: the roots are not below −1 minute (`_get_root` answers inside `[guess, guess + 1]`, `guess ≥ 0`), so that
+    `int_end` is not negative (a negative slice bound would count from the end). -/
+theorem get_next_passes_eq_of (e : List α) (root : Nat → α) (maxim : α → α → α) (am : UTC → α → UTC)
+    (mg : UTC → Int → Times) (ef eif : UTC → α → α → α → α → Fn) (self : Orbital.Self α T) (utc : UTC) (len : Int)
+    (lon lat alt tol hor : α) (hceil : ∀ g, 0 ≤ FloorCeil.ceilI (root g) + 1)
+    (gmp : Fn → α → α → α → M α) (gr : Fn → Int → Int → α → M α)
+    (hgmp : ∀ lo hi, gmp (eif utc lon lat alt hor) lo hi tol = Except.ok (maxim lo hi))
+    (hgr : ∀ g : Nat, gr (ef utc lon lat alt hor) (g : Int) (g : Int) tol = Except.ok (root g)) :
+    Orbital.get_next_passes (add_minutes := fun u m => Except.ok (am u m)) (elevation_fn := ef) (elevation_inv_fn := eif)
+        (elevation_samples := fun _ _ _ _ _ => Except.ok e) (get_max_parab := gmp)
+        (get_root := gr)
+        (int_ceil_plus_1 := fun x => Except.ok (FloorCeil.ceilI x + 1)) (int_floor := fun x => Except.ok (FloorCeil.floorI x))
+        (minute_grid := mg) (np_argmax := fun l => Except.ok (argmax l : Int))
+        (sign_changes := fun l => (zeroCrossings l).map Int.ofNat) self utc len lon lat alt tol hor =
+      Except.ok ((passes e root maxim).map (toTriple am utc)) := by
+  unfold Orbital.get_next_passes passes
+  simp only [ok_bind, pure_eq]
+  have key := fun f hf => loop_eq e root maxim am utc f hf (zeroCrossings e) [] none (zeroCrossings_lt e)
+  simp only [Option.map_none, List.nil_append] at key
+  refine key _ ?_
+  -- the body of the loop, whatever its syntactic shape, is one `bodyOf`
+  intro g st hinv
+  obtain ⟨res, rt, rm⟩ := st
+  simp only at hinv
+  subst hinv
+  simp only [ok_bind, index_nat, Int.toNat_natCast, bodyOf, hgr, hgmp]
+  cases hx : e[g]? with
+  | none => rfl
+  | some x =>
+    simp only [ok_bind, FloatArith.lt, FloatOps.ofInt, hgr, hgmp]
+    have h0 : (Passes.ofInt (0 : Int) : α) = (0 : α) := rfl
+    rw [h0]
+    by_cases hl : Num.lt x (0 : α) = true
+    · simp [hl]
+    · simp only [hl, Bool.false_eq_true, if_false]
+      cases rm with
+      | none => rfl
+      | some r =>
+        have hc := hceil g
+        have e1 : max (0 : Int) (FloorCeil.floorI r) = ((intStart r : Nat) : Int) := by
+          unfold intStart; omega
+        have e2 : min (e.length : Int) (FloorCeil.ceilI (root g) + 1) = ((intEnd e (root g) : Nat) : Int) := by
+          unfold intEnd; omega
+        simp only [Option.map_some, Option.isNone_some, Bool.false_eq_true, if_false, need_some, ok_bind, e1, e2,
+          slice_nat, FloatArith.max, FloatArith.min, FloatOps.ofInt, mkPass, hgmp, hgr]
+        simp only [Int.natCast_add]
+
 /-- **C03 tie.**  `get_next_passes(utc_time, length, lon, lat, alt, tol, horizon)` as the source has it now, on the
     elevation samples `e` (minus horizon): the model's `passes`, each pass reported as (rise, fall, culmination) times.
     `hceil`: the roots are not below −1 minute (`_get_root` answers inside `[guess, guess + 1]`, `guess ≥ 0`), so that
